@@ -15,11 +15,15 @@ open Stab Stab.Engine
 theorem run_requires_running (c : Cfg) (s : State) (id i t a : Nat)
     (h : (hRunTask c s id i t a).2 = true) : ((s.stage i).tasks.getD t default).status = .running := by
   unfold hRunTask at h
-  apply Classical.byContradiction
-  intro hne
-  have : (((s.stage i).tasks.getD t default).status != Status.running) = true := by simpa using hne
-  simp only [this, ↓reduceIte] at h
-  exact absurd h (by decide)
+  split at h
+  · cases h
+  · rename_i hg
+    unfold runTaskGuard at hg
+    simp only [] at hg
+    apply Classical.byContradiction
+    intro hne
+    simp only [List.getD_eq_getElem?_getD] at hne
+    simp [hne] at hg
 
 /-- **A message whose processed mark is durable is never handled again**: delivering it only removes the row; no
     stage, task or workflow row changes, nothing is pushed, no task runs. -/
@@ -49,9 +53,15 @@ theorem processResult_marks (c : Cfg) (st : StageSt) (id i t n : Nat) (oc : Outc
 theorem runTask_commit_carries_mark (c : Cfg) (s : State) (id i t a : Nat) :
     ∀ txn ∈ (hRunTask c s id i t a).1, Eff.mark id ∈ txn := by
   unfold hRunTask
-  simp only []
-  (repeat' split)
-  all_goals first | exact processResult_marks _ _ _ _ _ _ _ | simp
+  split
+  · rename_i txns hg
+    unfold runTaskGuard at hg
+    simp only [] at hg
+    (repeat' split at hg) <;> simp at hg <;> subst hg <;> simp
+  · unfold runTaskCommit
+    simp only []
+    (repeat' split)
+    all_goals first | exact processResult_marks _ _ _ _ _ _ _ | simp
 
 /-- **Each stage is started at most once per loop iteration**: a stage leaves NOT_STARTED for RUNNING only through
     its own StartStage message handled in a READY state (any state, any other message: impossible); once RUNNING, a
@@ -65,7 +75,7 @@ theorem startStage_on_planned_running_stage_is_inert (c : Cfg) (s : State) (id i
     (hrun : (s.stage i).status = .running) (htasks : (s.stage i).tasks ≠ []) :
     ∀ txn ∈ hStartStage c s id i r, ∀ e ∈ txn, ∀ j new, e ≠ .setStage j new := by
   intro txn htxn e he j new
-  unfold hStartStage startIfReady at htxn
+  unfold hStartStage hStartStageCore startIfReady at htxn
   simp only [] at htxn
   have hne : (s.stage i).tasks.isEmpty = false := by
     cases h : (s.stage i).tasks with
